@@ -104,6 +104,8 @@ def sweep(verdict, exe, workloads, tag="oom", sigprefix="oom"):
         if g["end"] and (g["end"]["live"] != g["begin"]["live"] or g["end"]["fds"] != g["begin"]["fds"] or g["end"]["incsp"] != 0):
             probs.append("after cfg_free: %d block(s) still live, descriptors %d->%d, include stack %d" % (
                 g["end"]["live"] - g["begin"]["live"], g["begin"]["fds"], g["end"]["fds"], g["end"]["incsp"]))
+        if g["end"] and g["end"].get("uptr_lost", 0):
+            probs.append("after cfg_free: %d user pointer(s) produced by the value-parsing callback still live (never handed to the release callback)" % g["end"]["uptr_lost"])
         if probs:
             sym = "incomplete-success" if any("effect is incomplete" in p for p in probs) else "leak" if any("still live" in p for p in probs) else "other"
             verdict.violation("%s:%s:%s:%s:k=%d" % (sigprefix, fn, sym, w.name, k),
